@@ -23,7 +23,9 @@ What is compared, per case:
    accepted) inside that band;
  * a point ON a nucleus with threshold 0 divides by zero in the code (inf / nan under errstate) and has no value in
    the property: such points are not compared, only counted (the call must not raise);
- * with a transform, additionally impl(T, P) against impl(None, T^T P T) (T^T P T computed exactly).
+ * with a transform, additionally impl(T, P) against impl(None, T^T P T) (T^T P T computed exactly);
+ * HISTORY: a case with "P2" is a sequence of three calls in one process (P, P2, P again; everything else value-identical
+   and rebuilt), each compared with the model for its own density matrix (detail kind "history").
 """
 import itertools
 import math
@@ -48,6 +50,7 @@ RULE = ("bases of 1-4 shells, l 0..3, 1-4 primitives, 1-3 segmented contractions
         "(1, 2, K-1, K+1 rows); a separate stream of invalid calls (negative threshold, asymmetric or non-square or "
         "wrongly sized density matrix, count mismatch, transform with a wrong number of columns) compared as rejected; "
         "a case is non-trivial when some model value is non-zero and (l>0 or K>1 or M>1 somewhere); distinct by input hash")
+RULE += " HISTORY stream (the returned value depends only on the arguments): every valid case whose exact model is cheap (about half of them; every basis size, geometry kind and transform kind occurs) is a SEQUENCE of three calls in one process with value-identical, freshly built basis / points / nuclei / transform / threshold: density matrix P, a different symmetric matrix P2 (own PRNG), then P again; every call is compared with the exact model for ITS density matrix with the same tolerance (detail kind \"history\", the replay case contains P2; shrinking keeps P2 in step with P and evaluates every candidate sequence in a fresh process)"
 ASSUMPTIONS = [
     "rounding of the NumPy pipeline is not modelled: the 1e-8 relative bound is decided on the generated inputs against "
     "the exact value (Boys function, exp, sqrt by mpmath)",
@@ -169,7 +172,8 @@ def eval_case(model, case):
     types = "".join("s" if s.sph else "c" for s in basis)
     nf = sum(s.nfun() for s in basis)
     tkind = "none" if T is None else ("square" if len(T) == nf else "rect%+d" % (len(T) - nf))
-    tag = "%s n=%d %s T=%s %s" % (case["kind"], len(basis), types, tkind, case.get("thr_kind", "?"))
+    tag = "%s n=%d %s T=%s %s%s" % (case["kind"], len(basis), types, tkind, case.get("thr_kind", "?"),
+                                    " hist" if case.get("P2") is not None else "")
     cmd = "(250 %s %s %s %s %s %s %s)" % (twoindex.basis_sx(basis), sx(P), sx(pts), sx(nco), sx(nch),
                                            twoindex.t_sx(T), sx(thr))
     res = model.call(cmd)
@@ -197,60 +201,105 @@ def eval_case(model, case):
             if pairs[ip][ia][1] != d2_of(p, n):
                 raise RuntimeError("squared distance of the model differs from the harness's")
     # tolerance scale of the electronic term
-    A = np.abs(npmat(P))
-    if T is not None:
-        Ta = np.abs(npmat(T))
-        A = Ta.T @ A @ Ta
     D = np.abs(np.array([[float(x) for x in row] for row in diagv], dtype=float)).reshape(nf, len(pts))
     S = np.sqrt(D)
-    worst = None
-    for ip, p in enumerate(pts):
-        x = float(impl[ip])
-        classes = [pair_class(p, n, thr) for n in nco]
-        for c in classes:
-            stats["pair-" + c] = stats.get("pair-" + c, 0) + 1
-        for ia, n in enumerate(nco):
-            if classes[ia] == "exact" and d2_of(p, n) > 0:
-                d = float_exact_distance(p, n)
-                k = "exact-thr<d" if thr < d else ("exact-thr=d" if thr == d else "exact-thr>d")
-                stats[k] = stats.get(k, 0) + 1
-        if "undefined" in classes:
-            if undef[ip] != 1:
-                raise RuntimeError("model and harness disagree about an undefined point")
-            stats["undefined-point:" + ("nonfinite" if not np.isfinite(x) else "finite")] = \
-                stats.get("undefined-point:" + ("nonfinite" if not np.isfinite(x) else "finite"), 0) + 1
-            continue
-        if not np.isfinite(x):
-            return {"detail": {"kind": "nonfinite", "index": [ip], "impl": repr(x), "model": "%.17g" % float(vals[ip])},
-                    "tag": tag, "stats": stats}
-        se = float(S[:, ip] @ A @ S[:, ip])
-        amb = [ia for ia, c in enumerate(classes) if c == "either"]
-        if len(amb) > 4:
-            stats["point-skipped-too-many-either"] = stats.get("point-skipped-too-many-either", 0) + 1
-            continue
-        best = None
-        for flips in itertools.product((False, True), repeat=len(amb)):
-            v = vals[ip]
-            kept = [pairs[ip][ia][0] == 0 for ia in range(len(nco))]
-            for ia, fl in zip(amb, flips):
-                if fl:
-                    term = nch[ia] / pairs[ip][ia][2]
-                    v = v - term if kept[ia] else v + term
-                    kept[ia] = not kept[ia]
-            sn = sum(abs(float(nch[ia])) / float(pairs[ip][ia][2]) for ia in range(len(nco)) if kept[ia])
-            tol = TOL * (se + sn)
-            diff = abs(Fraction(x) - v)
-            ratio = (float(diff) / tol) if tol > 0 else (0.0 if diff == 0 else float("inf"))
-            if best is None or ratio < best[0]:
-                best = (ratio, v, tol, float(diff))
-        if worst is None or best[0] > worst[0]:
-            worst = (best[0], ip, x, best[1], best[2], best[3],
-                     [(int(pairs[ip][ia][0]), classes[ia]) for ia in range(len(nco))])
-    detail = None
-    if worst is not None and worst[0] > 1.0:
-        detail = {"kind": "value", "index": [worst[1]], "impl": repr(worst[2]), "model": "%.17g" % float(worst[3]),
-                  "abs_diff": worst[5], "tol": worst[4], "point": [str(c) for c in pts[worst[1]]],
-                  "model_masked_and_class_per_nucleus": worst[6]}
+
+    def absP(Pm):
+        Am = np.abs(npmat(Pm))
+        if T is not None:
+            Ta = np.abs(npmat(T))
+            Am = Ta.T @ Am @ Ta
+        return Am
+
+    A = absP(P)
+
+    def compare_values(impl, vals, A, stats):
+        """the values of one call against the model values `vals` (density-matrix scale A); stats: dict to count the
+        pair classes in, or None"""
+        worst = None
+        for ip, p in enumerate(pts):
+            x = float(impl[ip])
+            classes = [pair_class(p, n, thr) for n in nco]
+            if stats is not None:
+                for c in classes:
+                    stats["pair-" + c] = stats.get("pair-" + c, 0) + 1
+                for ia, n in enumerate(nco):
+                    if classes[ia] == "exact" and d2_of(p, n) > 0:
+                        d = float_exact_distance(p, n)
+                        k = "exact-thr<d" if thr < d else ("exact-thr=d" if thr == d else "exact-thr>d")
+                        stats[k] = stats.get(k, 0) + 1
+            if "undefined" in classes:
+                if undef[ip] != 1:
+                    raise RuntimeError("model and harness disagree about an undefined point")
+                if stats is not None:
+                    k = "undefined-point:" + ("nonfinite" if not np.isfinite(x) else "finite")
+                    stats[k] = stats.get(k, 0) + 1
+                continue
+            if not np.isfinite(x):
+                return {"kind": "nonfinite", "index": [ip], "impl": repr(x), "model": "%.17g" % float(vals[ip])}
+            se = float(S[:, ip] @ A @ S[:, ip])
+            amb = [ia for ia, c in enumerate(classes) if c == "either"]
+            if len(amb) > 4:
+                if stats is not None:
+                    stats["point-skipped-too-many-either"] = stats.get("point-skipped-too-many-either", 0) + 1
+                continue
+            best = None
+            for flips in itertools.product((False, True), repeat=len(amb)):
+                v = vals[ip]
+                kept = [pairs[ip][ia][0] == 0 for ia in range(len(nco))]
+                for ia, fl in zip(amb, flips):
+                    if fl:
+                        term = nch[ia] / pairs[ip][ia][2]
+                        v = v - term if kept[ia] else v + term
+                        kept[ia] = not kept[ia]
+                sn = sum(abs(float(nch[ia])) / float(pairs[ip][ia][2]) for ia in range(len(nco)) if kept[ia])
+                tol = TOL * (se + sn)
+                diff = abs(Fraction(x) - v)
+                ratio = (float(diff) / tol) if tol > 0 else (0.0 if diff == 0 else float("inf"))
+                if best is None or ratio < best[0]:
+                    best = (ratio, v, tol, float(diff))
+            if worst is None or best[0] > worst[0]:
+                worst = (best[0], ip, x, best[1], best[2], best[3],
+                         [(int(pairs[ip][ia][0]), classes[ia]) for ia in range(len(nco))])
+        if worst is not None and worst[0] > 1.0:
+            return {"kind": "value", "index": [worst[1]], "impl": repr(worst[2]), "model": "%.17g" % float(worst[3]),
+                    "abs_diff": worst[5], "tol": worst[4], "point": [str(c) for c in pts[worst[1]]],
+                    "model_masked_and_class_per_nucleus": worst[6]}
+        return None
+
+    detail = compare_values(impl, vals, A, stats)
+    if detail is not None and detail["kind"] == "nonfinite":
+        return {"detail": detail, "tag": tag, "stats": stats}
+    if detail is None and case.get("P2") is not None:
+        # HISTORY: the same basis / points / nuclei / transform / threshold (value-identical, freshly built arrays)
+        # with ANOTHER symmetric density matrix P2, then the first density matrix again - in this process, in a row.
+        # Every call is compared with the exact model for ITS density matrix.
+        P2 = mat(case["P2"])
+        res2 = model.call("(250 %s %s %s %s %s %s %s)" % (twoindex.basis_sx(basis), sx(P2), sx(pts), sx(nco), sx(nch),
+                                                        twoindex.t_sx(T), sx(thr)))
+        if res2[0] == 0:
+            raise RuntimeError("the model refuses the second density matrix of a history case")
+        stats["history-sequences"] = 1
+        for call, (Pm, vm) in enumerate(((P2, res2[1]), (P, vals)), start=2):
+            st_h, impl_h = call_impl(_impl, basis, Pm, pts, nco, nch, T, thr)
+            stats["history-calls"] = stats.get("history-calls", 0) + 1
+            if st_h != "ok":
+                d = {"kind": "rejected", "impl": impl_h}
+            elif np.asarray(impl_h).shape != (len(pts),):
+                d = {"kind": "shape", "impl_shape": list(np.asarray(impl_h).shape), "model_shape": [len(pts)]}
+            else:
+                d = compare_values(np.asarray(impl_h), vm, absP(Pm), None)
+                if d is None and call == 3:
+                    same = np.array_equal(np.asarray(impl_h), impl, equal_nan=True)
+                    stats["history-repeat-bit-identical"] = 1 if same else 0
+            if d is not None:
+                detail = {"kind": "history", "call": call, "calls": 3,
+                          "what": "the second density matrix P2" if call == 2 else "the first density matrix again",
+                          "failure": d,
+                          "note": "sequence of calls in one process with the same basis, points, nuclei, transform and "
+                                  "threshold: density matrix P, then P2, then P again; every call is compared with the "
+                                  "exact model for its own density matrix"}
+                break
     if detail is None and T is not None and len(T) > 0:
         # the property's second sentence, on the implementation itself
         Pb = backtransform(T, P)
@@ -433,7 +482,7 @@ THR_KINDS = ["zero", "beyond", "below-min", "exact-", "exact=", "exact+", "clear
              "either"]
 
 
-def gen_valid(rng, idx, tier):
+def gen_valid(rng, idx, tier, hrng=None):
     n = 1 + idx % 4
     big = (idx % 7 == 0)
     lmax = 3 if n <= 2 else (3 if big else 2)
@@ -468,13 +517,21 @@ def gen_valid(rng, idx, tier):
             "points": [[str(x) for x in p] for p in pts], "ncoords": [[str(x) for x in p] for p in nuc],
             "ncharges": [str(z) for z in nch], "T": None if T is None else [[str(x) for x in r] for r in T],
             "thr": str(thr)}
+    if hrng is not None and cost * len(pts) <= (15000 if tier == "quick" else 30000):
+        # HISTORY (every valid case whose exact model is cheap - estimate above - i.e. about half of them, ~10 % of
+        # the model time; all of n = 1..4, every geometry kind, no / square / rectangular transform occur):
+        # a second symmetric density matrix for the same basis / points / nuclei / transform / threshold
+        P2 = gen_P(hrng, m)
+        while P2 == P:
+            P2 = gen_P(hrng, m)
+        case["P2"] = [[str(x) for x in r] for r in P2]
     check_exact(case)
     return case
 
 
 def check_exact(case):
     """every number handed to the implementation is exactly the rational handed to the model"""
-    nums = [x for r in case["P"] for x in r] + [x for p in case["points"] for x in p] + \
+    nums = [x for r in case["P"] + (case.get("P2") or []) for x in r] + [x for p in case["points"] for x in p] + \
            [x for p in case["ncoords"] for x in p] + list(case["ncharges"]) + [case["thr"]]
     if case.get("T") is not None:
         nums += [x for r in case["T"] for x in r]
@@ -493,6 +550,7 @@ def gen_invalid(rng, idx, tier):
     base["points"] = base["points"][:3]
     kind = INVALID_KINDS[idx % len(INVALID_KINDS)]
     c = dict(base)
+    c.pop("P2", None)
     c["kind"] = "invalid"
     P = mat(c["P"])
     m = len(P)
@@ -566,9 +624,10 @@ def special_cases():
 def gen_cases(tier, seed):
     rng = random.Random(1000003 * seed + 14)
     nv, ni = (140, 20) if tier == "quick" else (3000, 200)
+    hrng = random.Random(1000003 * seed + 14 + 7919)   # history stream: own PRNG, the first calls are unchanged
     cases = special_cases()
     for i in range(nv):
-        cases.append(gen_valid(rng, i, tier))
+        cases.append(gen_valid(rng, i, tier, hrng))
     for i in range(ni):
         cases.append(gen_invalid(rng, i, tier))
     return cases
@@ -582,6 +641,35 @@ def fit_P(P, m):
 
 
 def shrink_case(case):
+    """candidates of _shrink_plain with the second density matrix of a history case (P2) kept in step with P; a
+    history case additionally tries: no second matrix (only a failure of the FIRST call survives that: candidates are
+    evaluated in fresh processes, lib.shrink_isolated), P2 = 0, P2 = 2 I"""
+    P2 = case.get("P2")
+    if P2 is not None:
+        c = dict(case)
+        c["P2"] = None
+        yield c
+    for c in _shrink_plain(case):
+        if P2 is not None:
+            if c.pop("_backtransformed", False):
+                c["P2"] = [[str(x) for x in r] for r in backtransform(mat(case["T"]), mat(P2))]
+                if not all(isrepr(Fraction(x)) for r in c["P2"] for x in r):
+                    continue
+            elif len(c["P"]) != len(P2):
+                c["P2"] = fit_P(P2, len(c["P"]))
+        else:
+            c.pop("_backtransformed", None)
+        yield c
+    if P2 is not None:
+        m = len(P2)
+        for simple in ([["0"] * m for _ in range(m)], [["2" if i == j else "0" for j in range(m)] for i in range(m)]):
+            if P2 != simple and simple != case["P"]:
+                c = dict(case)
+                c["P2"] = simple
+                yield c
+
+
+def _shrink_plain(case):
     if case["kind"] != "esp":
         if len(case["points"]) > 1:
             c = dict(case)
@@ -608,6 +696,7 @@ def shrink_case(case):
             c = dict(case)
             c["T"] = None
             c["P"] = [[str(x) for x in r] for r in backtransform(T, P)]
+            c["_backtransformed"] = True
             if all(isrepr(Fraction(x)) for r in c["P"] for x in r):
                 yield c
         if len(T) > 1:
@@ -674,7 +763,7 @@ def run(rep, tier, seed, model, replay):
         cases = [replay["case"]]
     else:
         cases = gen_cases(tier, seed)
-    run_cases(rep, cases, eval_case, shrinkfn=shrink_case)
+    run_cases(rep, cases, eval_case, shrinkfn=shrink_case, isolate=True)
 
 
 def xcheck_cmds(seed):
